@@ -306,6 +306,8 @@ type boxKernel struct {
 	Events    []string
 	// ListOrderRand drives the order of List results.
 	listRand *vfRand
+	// FailServiceLists: that many of the next listings of all Services fail.
+	FailServiceLists int
 	// OnStatusWrite is called after a status sub-resource write was applied.
 	OnStatusWrite func(rec string, obj client.Object)
 	// OnDone is called when a reconcile returned (not when it was killed by a crash).
@@ -650,6 +652,12 @@ func (b *boxClient) List(ctx context.Context, list client.ObjectList, opts ...cl
 	var items []client.Object
 	switch l := list.(type) {
 	case *corev1.ServiceList:
+		if b.k.FailServiceLists > 0 {
+			// an API failure: the listing of all Services (the reload of a starting controller) is refused
+			b.k.FailServiceLists--
+			b.k.c.Logf("   List(services) by %s fails (injected)", b.rec)
+			return apierrors.NewServiceUnavailable("injected: the API server refused the list")
+		}
 		for _, k := range vfShuffled(b.k.listRand, vfSortedKeys(s.Services)) {
 			l.Items = append(l.Items, *s.Services[k].DeepCopy())
 			items = append(items, s.Services[k])
